@@ -126,6 +126,38 @@ def check_one(ctx, tree, text, meta):
 _BATCH = None
 
 
+def file_layouts(ctx, rng, only=None):
+    """One small body with characters outside ASCII behind every header layout the library tolerates (version 2; version 1 with CRLF,
+    LF, bare CR or nothing at all between the fields - in the last two the body shares a physical line with the header), read as a
+    file: the tree is the document's, in every rendering and behind every layout."""
+    import io
+    from ofxtools.Parser import OFXTree
+
+    fields = ["OFXHEADER:100", "DATA:OFXSGML", "VERSION:160", "SECURITY:NONE", "ENCODING:UNICODE", "CHARSET:NONE", "COMPRESSION:NONE", "OLDFILEUID:NONE", "NEWFILEUID:NONE"]
+    layouts = {"v2": hostile_history.V2, "v1-crlf": "\r\n".join(fields) + "\r\n\r\n", "v1-lf": "\n".join(fields) + "\n\n", "v1-cr": "\r".join(fields) + "\r\r",
+               "v1-none": "".join(fields), "v1-cr-glued": "\r".join(fields) + "\r", "v1-blank": " ".join(fields) + " "}
+    tree = ("OFX", [("SONRS", [("ORG", "caf\u00e9 \u6c49\u5b57"), ("MEMO", "\u20ac5 \u2013 na\u00efve \U0001f600")]), ("NAME", "\u00fcber")])
+    for lname, hdr in layouts.items():
+        for r in range(3):
+            if only is not None and only != [lname, r]:
+                continue
+            body = render.random_rendering(tree, random.Random(f"layout/{lname}/{r}"))
+            if lname in ("v1-none", "v1-cr-glued", "v1-blank"):
+                body = body.lstrip()
+            ctx.ev()
+            ctx.count("file_layouts_read")
+            case = {"text": body, "tree": tree_json(tree), "meta": {"file_layout": [lname, r]}}
+            try:
+                t = OFXTree()
+                t.parse(io.BytesIO((hdr + body).encode("utf_8")))
+                got = ref_sgml.from_etree(t.getroot())
+            except Exception as e:
+                ctx.violation(f"file-layout/{lname}/raises-{type(e).__name__}", f"OFXTree.parse raised {e!r} on a {lname} file with body {body[:120]!r}", case)
+                continue
+            if got != tree:
+                ctx.violation(f"file-layout/{lname}/tree-differs", f"{lname} file: got {str(got)[:200]} want {str(tree)[:200]}", case)
+
+
 def tree_json(t):
     return [t[0], [tree_json(c) for c in t[1]]] if isinstance(t[1], list) else [t[0], t[1]]
 
@@ -219,8 +251,14 @@ def run_shard(ctx):
             check_one(ctx, t, render.random_rendering(t, rng), {"deep": depth})
         ctx.count("deep_trees")
     wide = ("OFX", [("STMTTRN", [("FITID", str(i)), ("NAME", "n&amp;" + str(i))]) for i in range(3000)])
-    check_one(ctx, wide, render.random_rendering(wide, rng), {"wide": 3000})
+    wtext = render.random_rendering(wide, rng)
+    check_one(ctx, wide, wtext, {"wide": 3000})
+    # the SAME long text (> 64 KiB) a second and a third time: by a new builder each time, in this process
+    for again in range(2):
+        check_one(ctx, wide, wtext, {"wide": 3000, "again": again + 1})
+        ctx.count("long_body_read_again")
     ctx.count("wide_trees")
+    file_layouts(ctx, rng)
 
     # (c) element trees of generated model instances
     from vf.gen import instances
@@ -256,4 +294,13 @@ def run_shard(ctx):
 
 def replay(ctx, case):
     ref_sgml.selftest()
-    check_one(ctx, tree_unjson(case["tree"]), case["text"], case.get("meta"))
+    meta = case.get("meta") or {}
+    if meta.get("file_layout"):
+        file_layouts(ctx, ctx.rng, only=meta["file_layout"])
+        return
+    for _ in range(meta.get("again", 0)):
+        try:
+            lib_parse(case["text"])  # the earlier readings of the same text
+        except Exception:  # noqa
+            pass
+    check_one(ctx, tree_unjson(case["tree"]), case["text"], meta)
